@@ -152,7 +152,7 @@ func (u *c09Unit) strs() []string {
 
 func runC09(c *Ctx) error {
 	n := c.Pick(150, 2500)
-	c.Rule = "real gocc runs under a step budget on every instrumented loop and a CPU rlimit: (a) well-formed grammars with hostile spellings (string literals with % $ quotes back-quotes backslashes comment markers template braces newlines non-ASCII; unicode token and production names; action text with back-quotes > $), (b) byte- and token-level mutants of well-formed grammars, (c) random flag combinations incl. -o sub/dir, -o ./x/, absolute -o, and -p with the correct path, (d) deeply nested nullable repetitions/options; termination = no budget/CPU kill; every run that exits 0 must have written token+util, lexer unless -no_lexer, parser+errors iff there is a syntax part, all non-empty, and everything that exited 0 is compiled in one batch go build (e: strace fault injection on the N-th write/openat/mkdirat), (f) regeneration into an output directory that already holds an earlier generation made with the debug flags / from another grammar; one evaluation = one gocc run; non-trivial = run that exited 0 and was compiled, or mutant run; distinct by (text, flags)"
+	c.Rule = "real gocc runs under a step budget on every instrumented loop and a CPU rlimit: (a) well-formed grammars with hostile spellings (string literals with % $ quotes back-quotes backslashes comment markers template braces newlines non-ASCII; unicode token and production names; action text with back-quotes > $), (b) byte- and token-level mutants of well-formed grammars, (c) random flag combinations incl. -o sub/dir, -o ./x/, absolute -o, -p with the correct path, and runs started in a directory below the module root, (d) deeply nested nullable repetitions/options; termination = no budget/CPU kill; every run that exits 0 must have written token+util, lexer unless -no_lexer, parser+errors iff there is a syntax part, all non-empty, and everything that exited 0 is compiled in one batch go build (e: strace fault injection on the N-th write/openat/mkdirat), (f) regeneration into an output directory that already holds an earlier generation made with the debug flags / from another grammar; one evaluation = one gocc run; non-trivial = run that exited 0 and was compiled, or mutant run; distinct by (text, flags)"
 	c.Assumptions = []string{"termination is judged as bounded progress on size-bounded inputs: no instrumented loop may exceed the step budget, no run may exceed 120 s of CPU; a wall-clock watchdog alone is inconclusive", "harness headers and actions are valid Go by construction, mutants carry no action text, so a compile error is gocc's"}
 	if err := c.W.WriteSupport(); err != nil {
 		return err
@@ -256,7 +256,12 @@ func runC09(c *Ctx) error {
 			g := richGrammar(r)
 			u := add("flags", g, "", randFlags(r))
 			u.hasSyn = len(g.NTs) > 0
-			switch r.Intn(9) {
+			switch r.Intn(11) {
+			case 7, 8: // gocc started in a directory below the module root (go.mod is in an ancestor), no -p
+				u.opts.WorkSub = "sub_" + u.name
+				if r.Intn(2) == 0 {
+					u.opts.WorkSub = "deep_" + u.name + "/a/b"
+				}
 			case 0:
 				u.opts.OutSub = u.name + "/sub/dir"
 			case 1:
@@ -524,7 +529,7 @@ func replayC09(c *Ctx, w *Witness) error {
 	if len(w.Strs) >= 3 {
 		u.kind = w.Strs[0]
 		u.opts.OutSub, u.opts.WorkSub = w.Strs[1], w.Strs[2]
-		if u.opts.WorkSub != "" {
+		if strings.HasPrefix(u.opts.WorkSub, "p_") {
 			u.opts.NoOut = true
 		}
 	}
